@@ -18,7 +18,7 @@ Cfg2 ==
   { [trig |-> [h \in {"h1", "h2"} |-> IF h = "h1" THEN t1 ELSE t2],
      await |-> [h \in {"h1", "h2"} |-> IF h = "h1" THEN a1 ELSE a2],
      crit |-> [h \in {"h1", "h2"} |-> IF h = "h1" THEN c1 ELSE TRUE],
-     fails |-> f, plan |-> p, bodyfails |-> b, teardown |-> TRUE] :
+     fails |-> f, plan |-> p, bodyfails |-> b, teardown |-> TRUE, quiet |-> {}, once |-> {}] :
       t1 \in TrigPts, t2 \in {M("before_START_ACTIVITY", 0), M("before_START_ACTIVITY", 5), M("after_START_ACTIVITY", 0)},
       a1 \in UNION {AwaitAfter(t) : t \in TrigPts}, a2 \in {M("after_START_ACTIVITY", 0)},
       c1 \in BOOLEAN, f \in SUBSET {"h1"}, p \in {<<"START_ACTIVITY", "STOP_ACTIVITY">>, <<"START_ACTIVITY">>}, b \in {{}, {1}, {2}} }
@@ -30,7 +30,7 @@ Cfg3 ==
   { [trig |-> [h \in {"h1", "h2"} |-> IF h = "h1" THEN t1 ELSE t2],
      await |-> [h \in {"h1", "h2"} |-> IF h = "h1" THEN a1 ELSE a2],
      crit |-> [h \in {"h1", "h2"} |-> IF h = "h1" THEN c1 ELSE c2],
-     fails |-> f, plan |-> <<"START_ACTIVITY", "STOP_ACTIVITY">>, bodyfails |-> {}, teardown |-> TRUE] :
+     fails |-> f, plan |-> <<"START_ACTIVITY", "STOP_ACTIVITY">>, bodyfails |-> {}, teardown |-> TRUE, quiet |-> {}, once |-> {}] :
       t1 \in {M("before_START_ACTIVITY", 0), M("leave_CONFIGURED", -1)},
       a1 \in {M("before_START_ACTIVITY", 0), M("leave_CONFIGURED", -1), M("leave_CONFIGURED", 5)},
       t2 \in {M("leave_CONFIGURED", -1), M("leave_CONFIGURED", 0), M("leave_CONFIGURED", 10), M("enter_RUNNING", 0)},
@@ -43,7 +43,7 @@ Cfg4 ==
   { [trig |-> [h \in {"h1", "h2"} |-> IF h = "h1" THEN t1 ELSE M("after_START_ACTIVITY", 0)],
      await |-> [h \in {"h1", "h2"} |-> IF h = "h1" THEN t1 ELSE M("after_START_ACTIVITY", 0)],
      crit |-> [h \in {"h1", "h2"} |-> TRUE],
-     fails |-> {}, plan |-> <<"START_ACTIVITY", "STOP_ACTIVITY", "START_ACTIVITY">>, bodyfails |-> {}, teardown |-> TRUE] :
+     fails |-> {}, plan |-> <<"START_ACTIVITY", "STOP_ACTIVITY", "START_ACTIVITY">>, bodyfails |-> {}, teardown |-> TRUE, quiet |-> {}, once |-> {}] :
       t1 \in {M("before_START_ACTIVITY", -1), M("before_START_ACTIVITY", 0), M("enter_RUNNING", 0), M("before_STOP_ACTIVITY", 0), M("after_STOP_ACTIVITY", -1)} }
 \* a call triggered and awaited in one moment at different weights of one sign, nothing else at the await weight, and a
 \* second hook at a still later weight: the await point (5) lies between the two triggers (0, 10)
@@ -51,8 +51,20 @@ Cfg5 ==
   { [trig |-> [h \in {"h1", "h2"} |-> IF h = "h1" THEN M(m, 0) ELSE M(m, 10)],
      await |-> [h \in {"h1", "h2"} |-> IF h = "h1" THEN M(m, 5) ELSE a2],
      crit |-> [h \in {"h1", "h2"} |-> IF h = "h1" THEN c1 ELSE c2],
-     fails |-> f, plan |-> <<"START_ACTIVITY", "STOP_ACTIVITY">>, bodyfails |-> {}, teardown |-> TRUE] :
+     fails |-> f, plan |-> <<"START_ACTIVITY", "STOP_ACTIVITY">>, bodyfails |-> {}, teardown |-> TRUE, quiet |-> {}, once |-> {}] :
       m \in {"leave_CONFIGURED"}, a2 \in {M("leave_CONFIGURED", 10), M("after_START_ACTIVITY", 0)},
       c1 \in BOOLEAN, c2 \in BOOLEAN, f \in SUBSET {"h1", "h2"} }
-CfgAll == Cfg2Valid \cup Cfg3Valid \cup Cfg4 \cup Cfg5
+\* a STOP requested from inside the core (END_OF_STREAM of the task) is cancelled by a critical hook that fails that once; the
+\* environment stays RUNNING; the STOP requested through the API afterwards goes through and must still collect - and report -
+\* the call that has been pending since START for after_STOP_ACTIVITY
+Cfg6 ==
+  { [trig |-> [h \in {"h1", "h2"} |-> IF h = "h1" THEN t1 ELSE t2],
+     await |-> [h \in {"h1", "h2"} |-> IF h = "h1" THEN M("after_STOP_ACTIVITY", 0) ELSE t2],
+     crit |-> [h \in {"h1", "h2"} |-> IF h = "h1" THEN c1 ELSE TRUE],
+     fails |-> f \cup {"h2"}, plan |-> <<"START_ACTIVITY", "STOP_ACTIVITY", "STOP_ACTIVITY">>, bodyfails |-> {}, teardown |-> TRUE,
+     quiet |-> {2}, once |-> {"h2"}] :
+      t1 \in {M("enter_RUNNING", 0), M("after_START_ACTIVITY", 0), M("before_STOP_ACTIVITY", -1)},
+      t2 \in {M("before_STOP_ACTIVITY", 0), M("leave_RUNNING", 0)},
+      c1 \in BOOLEAN, f \in SUBSET {"h1"} }
+CfgAll == Cfg2Valid \cup Cfg3Valid \cup Cfg4 \cup Cfg5 \cup Cfg6
 =============================================================================
